@@ -91,6 +91,49 @@ fn main() {
             }
             println!("RESULT enum:zinc-escape all grammar escapes decode as the grammar says");
         }
+        // ---- C01: encode to Zinc, decode, compare; args: kind + payload strings (hex utf-8); exit 3 = not identical
+        "zinc-roundtrip" => {
+            use libhaystack::encoding::zinc::encode::ToZinc;
+            let st = |i: usize| String::from_utf8_lossy(&unhex(&args[i])).to_string();
+            let v = match args[2].as_str() {
+                "str" => Value::make_str(&st(3)),
+                "uri" => Value::make_uri(&st(3)),
+                "ref" => Value::make_ref(&st(3)),
+                "refdis" => Value::make_ref_with_dis(&st(3), &st(4)),
+                "symbol" => Value::make_symbol(&st(3)),
+                "xstr" => Value::make_xstr_from(&st(3), &st(4)),
+                k => { eprintln!("unknown kind {k}"); std::process::exit(2); }
+            };
+            let z = v.to_zinc_string();
+            let back = z.as_ref().ok().map(|z| from_str(z));
+            let same = match (&back, &v) {
+                (Some(Ok(Value::Ref(b))), Value::Ref(a)) => a.value == b.value && a.dis == b.dis,
+                (Some(Ok(b)), a) => a == b,
+                _ => false,
+            };
+            println!("RESULT zinc-roundtrip value={v:?} zinc={z:?} back={back:?} same={same}");
+            if !same { std::process::exit(3); }
+        }
+        // ---- C10 enumerator: scalar values with empty / non-ASCII / odd strings through every encoder; a panic exits 101
+        "enum:zinc-encode-panics" => {
+            use libhaystack::encoding::zinc::encode::ToZinc;
+            let strs = ["", "a", "é", "éa", "a\"b", "\\", "$", "\u{0}", "😀", " ", "A", "ab"];
+            let mut n = 0;
+            for a in strs { for b in strs {
+                for v in [Value::make_str(a), Value::make_uri(a), Value::make_ref(a), Value::make_ref_with_dis(a, b), Value::make_symbol(a),
+                          Value::make_xstr_from(a, b)] {
+                    let _ = v.to_zinc_string();
+                    let _ = serde_json::to_string(&v);
+                    let _ = format!("{v}");
+                    n += 1;
+                }
+            } }
+            for x in [0.0, -0.0, 1e300, f64::NAN, f64::INFINITY, f64::NEG_INFINITY, 1.5, -1e-300] {
+                let v = Value::make_number(x); let _ = v.to_zinc_string(); let _ = serde_json::to_string(&v); n += 1;
+                let v = Value::make_coord_from(x, -x); let _ = v.to_zinc_string(); let _ = serde_json::to_string(&v); n += 1;
+            }
+            println!("RESULT enum:zinc-encode-panics {n} scalar values encoded to Zinc, Hayson and display text without a panic");
+        }
         // ---- C06: RFC 3339 text -> DateTime keeps the instant (or is rejected); exit 3 = different instant
         "rfc3339" => {
             let text = &args[2];
